@@ -1303,8 +1303,23 @@ Proof.
 Qed.
 
 Lemma draw_same_fresh c s cols rows content cursor :
-  s_buf s = [] -> draw_screen c s cols rows content cursor true false = draw_screen c s cols rows content cursor false.
+  s_buf s = [] -> draw_screen c s cols rows content cursor true false = draw_screen c s cols rows content cursor false false.
 Proof. intros Hb. unfold draw_screen. rewrite Hb. reflexivity. Qed.
+
+(* a draw abandoned because SIGWINCH arrived while its rows were produced: only the G1 designation may have
+   been written, the screen buffer is forgotten and the resize is pending *)
+Lemma draw_interrupted_ok c s cols rows content cursor toks s' :
+  s_resized s = false ->
+  draw_screen c s cols rows content cursor false false = Ok (toks, s') ->
+  exists s'', draw_screen c s cols rows content cursor false true = Ok ((if s_g1 s then [] else [TG1]), s'')
+    /\ s_buf s'' = [] /\ s_resized s'' = true /\ s_ru s'' = s_ru s' /\ s_g1 s'' = true.
+Proof.
+  intros Hres. unfold draw_screen. destruct (negb (rows =? zlen content)); [discriminate|].
+  rewrite !andb_false_r. rewrite Hres.
+  match goal with |- context [draw_rows ?a ?b ?c2 ?d ?e ?f ?g] => destruct (draw_rows a b c2 d e f g) as [acc|] end;
+    [|discriminate].
+  cbn [bind]. destruct cursor as [[x y]|]; intros H; inversion H; subst; eexists; (split; [reflexivity|]); cbn; auto.
+Qed.
 
 Definition RInv (c : cfg) (s : scr) (t : term) (last : option canvas) (shown : bool) : Prop :=
   Sync c s t /\
@@ -1317,7 +1332,8 @@ Lemma reach_inv c s t last shown : cfg_ok c -> Reach c s t last shown -> RInv c 
 Proof.
   intros Hc R. induction R as
     [t Hs | s t last shown content cursor toks s' R IH Hcan Hcur Hd | s t shown content cursor toks s' R IH Hd
-     | s t last shown t' R IH Hsb | s t last shown t' R IH Hrs].
+     | s t last shown t' R IH Hsb | s t last shown t' R IH Hrs
+     | s t last shown content cursor toks s' t' R IH Hcan Hcur Hd Hrs].
   - split; [apply sync_start; exact Hs|]. split; [intros; discriminate|].
     intros [H|H]; [cbn in H; congruence|discriminate].
   - destruct IH as (HS & _ & _).
@@ -1348,6 +1364,25 @@ Proof.
     + intros [H|H]; [cbn in H; congruence|discriminate].
   - destruct IH as (HS & _ & _). split; [eapply sync_resize; eauto|]. split; [intros; discriminate|].
     intros [H|H]; [cbn in H; congruence|discriminate].
+  - destruct IH as (HS & _ & _).
+    destruct (draw_paints_lemma c s t _ _ content cursor Hc HS eq_refl eq_refl Hcan Hcur)
+      as (toks0 & s0 & E & _ & HS0 & _).
+    assert (Hres : s_resized s = false) by apply HS.
+    destruct (draw_interrupted_ok c s _ _ content cursor toks0 s0 Hres E) as (s2 & E2 & B1 & B2 & B3 & B4).
+    rewrite E2 in Hd. inversion Hd; subst toks s'. clear Hd.
+    destruct HS as (Sru & Sres & _ & Sirm & Sscr & Sibm & Sso & Sg1 & Sbce & _).
+    destruct HS0 as (Z1 & _).
+    assert (F : t_irm t' = false /\ t_scrolled t' = false /\ t_ibm t' = false /\ t_so t' = t_so t /\ t_g1 t' = true
+                /\ t_bce t' = t_bce t /\ term_ok t').
+    { destruct Hrs as (R1 & R2 & R3 & R4 & R5 & R6 & R7).
+      destruct (s_g1 s) eqn:G; cbn [run fold_left step] in *; cbn in *; splits; auto; try congruence.
+      rewrite R5. apply Sg1. reflexivity. }
+    destruct F as (F1 & F2 & F3 & F4 & F5 & F6 & F7).
+    split.
+    + unfold Sync. cbn. rewrite B1. splits; auto; try congruence.
+      * intros U. rewrite F4. auto.
+      * intros B. rewrite F6. auto.
+    + split; [intros; discriminate|]. intros [H|H]; [cbn in H; congruence|discriminate].
 Qed.
 
 (* after any history of draws, forced clears and size changes ending with a draw, the terminal
